@@ -13,7 +13,7 @@ import vlib  # noqa: E402
 CINC = os.path.join(VERIF, "exprsmt", "cinc")     # stdint/stddef/stdbool/string/stdlib shim shared with engine E2
 CINC2 = os.path.join(HERE, "cinc")                # + uchar.h (utf16 bindings)
 
-_RES = re.compile(r"^\[(?P<id>[^\]]+)\] line (?P<line>\d+) (?P<desc>.*): (?P<st>SUCCESS|FAILURE|UNKNOWN|ERROR)\s*$", re.M)
+_RES = re.compile(r"^\[(?P<id>[^\]]+)\] (?:line (?P<line>\d+) )?(?P<desc>.*): (?P<st>SUCCESS|FAILURE|UNKNOWN|ERROR)\s*$", re.M)
 _FILEFN = re.compile(r"^(?P<file>\S+) function (?P<fn>\S+)\s*$")
 
 
@@ -46,7 +46,7 @@ def parse_results(out):
             continue
         m = _RES.match(line)
         if m:
-            res.append({"id": m.group("id"), "file": cur_file, "fn": cur_fn, "line": int(m.group("line")),
+            res.append({"id": m.group("id"), "file": cur_file, "fn": cur_fn, "line": int(m.group("line") or 0),
                         "desc": m.group("desc").strip(), "status": m.group("st")})
     return res
 
